@@ -5,7 +5,8 @@ from __future__ import annotations
 import ast
 
 from .. import effects, facts, fitrules
-from ..astutil import (call_name, calls_in, const_str, dotted, norm,
+from ..astutil import (call_name, calls_in, const_str, dotted, func_params,
+                       norm,
                        walk_no_nested)
 from ..cfg import CFG
 from ..guards import conditions_at
@@ -561,6 +562,97 @@ def r12_hash_encoding(ctx):
     r2_encoder(ctx)
 
 
+def r13_tested_value_is_stored(ctx):
+    """'Unchanged' is decided by comparing the stored setting with the
+    requested value, so the value that is stored must be the one that was
+    compared (a copy of it at most): if the request is rewritten between
+    the comparison and the store (an alias spelling replaced by its
+    canonical form, a list sorted, ...) the stored form never equals the
+    spelling the caller repeats, and every repetition drops the results and
+    fits again."""
+    from ..cfg import CFG
+    from ..dataflow import reaching_defs
+    fn = ctx.repo.mod("fit").func("FitProperties.__setitem__")
+    ctx.analysed(fn)
+    params = func_params(fn)
+    if len(params) < 3:
+        raise Undecided("FitProperties.__setitem__ signature changed")
+    kv, vv = params[1], params[2]
+    cfg = CFG(fn)
+    rd = reaching_defs(cfg)
+    comps = []
+    for n in walk_no_nested(fn, False):
+        if isinstance(n, ast.Compare) and len(n.ops) == 1 and isinstance(
+                n.ops[0], (ast.Eq, ast.NotEq)):
+            sides = [norm(n.left), norm(n.comparators[0])]
+            if vv in sides and any(s_ in (f"self[{kv}]", f"self.get({kv})")
+                                   for s_ in sides):
+                comps.append(n)
+    ctx.floor("comparisons of the stored setting with the request",
+              len(comps), 1)
+    stores = []
+    for c in calls_in(fn):
+        if isinstance(c.func, ast.Attribute) and c.func.attr == \
+                "__setitem__" and len(c.args) >= 2 and norm(
+                    c.args[-2]) == kv:
+            stores.append(c)
+    ctx.floor("stores of the setting", len(stores), 1)
+
+    def origin(defs, depth=0):
+        """definitions of the request after looking through copies"""
+        out = set()
+        for d in defs:
+            node = cfg.nodes[d]
+            a = node.ast
+            if depth < 4 and node.kind == "stmt" and isinstance(
+                    a, ast.Assign) and isinstance(a.value, ast.Call) and \
+                    call_name(a.value) in ("copy.deepcopy", "copy.copy",
+                                           "deepcopy") and \
+                    a.value.args and norm(a.value.args[0]) == vv:
+                inner = {d2 for (v, d2) in rd.get(d, ()) if v == vv}
+                out |= origin(inner, depth + 1)
+            else:
+                out.add(d)
+        return out
+    for cmp_ in comps:
+        cn = cfg.node_containing(cmp_)
+        if cn is None:
+            raise Undecided("comparison not found in the flow graph")
+        at_cmp = origin({d for (v, d) in rd.get(cn.id, ()) if v == vv})
+        for st in stores:
+            arg = st.args[-1]
+            sn = cfg.node_containing(st)
+            if sn is None or sn.id not in cfg.reach([cn.id]):
+                continue
+            # the stored expression: the request itself or a copy of it
+            a0 = arg
+            if isinstance(a0, ast.Call) and call_name(a0) in (
+                    "copy.deepcopy", "copy.copy", "deepcopy") and a0.args:
+                a0 = a0.args[0]
+            if norm(a0) != vv:
+                ctx.fail(st, f"stored value {norm(arg)[:40]}",
+                         f"FitProperties.__setitem__ compares `{norm(cmp_)}`"
+                         f" but stores `{norm(arg)[:60]}`: the stored form "
+                         "never equals a repeated request")
+                continue
+            at_store = origin({d for (v, d) in rd.get(sn.id, ())
+                               if v == vv})
+            extra = at_store - at_cmp
+            lines = sorted({cfg.nodes[d].lineno for d in extra
+                            if cfg.nodes[d].ast is not None})
+            ctx.check(not extra, st,
+                      f"the request compared at line {cmp_.lineno} is what "
+                      "is stored",
+                      f"FitProperties.__setitem__ rewrites `{vv}` (line "
+                      f"{', '.join(map(str, lines))}) after comparing it "
+                      f"with the stored setting (`{norm(cmp_)}`) and "
+                      "before storing it: the stored form differs from "
+                      "the spelling the caller repeats (e.g. segment="
+                      "'approach' stored as 0), so an unchanged request "
+                      "is taken for a change, the results are dropped and "
+                      "the fit runs again")
+
+
 RULES = [
     ("C03-R1", "a changed setting drops results on every storing path",
      r1_invalidate_on_change),
@@ -584,4 +676,6 @@ RULES = [
      "dependency order", r11_store_order),
     ("C03-R12", "the fit hash does not depend on how equal setting values "
      "are represented", r12_hash_encoding),
+    ("C03-R13", "the requested value compared with the stored setting is "
+     "the value that gets stored", r13_tested_value_is_stored),
 ]
